@@ -112,7 +112,11 @@ func vpT_C19_hist5() { vpC19Hist(5) }
 func vpC19Pairs(k int) NaturalLanguageValues {
 	var n NaturalLanguageValues
 	for i := 0; i < k; i++ {
-		t := LangRef([]byte{vpRange('a', 'd')})
+		c := vpRange('a', 'd')
+		t := LangRef([]byte{c})
+		if c == 'd' {
+			t = NilLangRef // the nil tag is a tag like any other: a text under it is not the same pair under "en"
+		}
 		for _, e := range n {
 			vpAssume(e.Ref != t)
 		}
